@@ -439,6 +439,10 @@ func verifyAndFillConfig(cfg *ResponseConfig, nowMS int) error {
 	if cfg.MinimumUpdatePeriodS != nil && *cfg.MinimumUpdatePeriodS <= 0 {
 		return fmt.Errorf("minimumUpdatePeriod must be > 0")
 	}
+	if cfg.StartNr != nil && (*cfg.StartNr < 0 || *cfg.StartNr > math.MaxUint32) {
+		// startNumber is an unsigned 32-bit value: -1 gave startNumber="4294967295" and 404 for every segment
+		return fmt.Errorf("start number must be in the range 0 to %d", uint32(math.MaxUint32))
+	}
 	if cfg.getAvailabilityTimeOffsetS() < 0 {
 		// Would be declared in the MPD, but is ignored when segments and timelines are generated
 		return fmt.Errorf("availabilityTimeOffset must not be negative")
